@@ -379,9 +379,11 @@ func codecCase(rep *Report, s *glue.Subject, d MD, idx int) {
 		// (b) decoding into a fresh generated message gives the value back
 		fresh := newOf(s.Zero)
 		var uerr error
-		pan, pmsg = safely(func() { uerr = proto.Unmarshal(b, fresh) })
+		entry := (idx/5 + mi) % 4
+		pan, pmsg = safely(func() { uerr = unmarshalVia(entry, b, fresh, false, false) })
+		rep.Count("C01", "decode-entry/"+unmarshalEntryName(entry), 1)
 		if pan || uerr != nil {
-			rep.Violate("C01", "codec/unmarshal-own-output/fails/"+mode, tn, fmt.Sprintf("Unmarshal of own output failed: err=%v %s", uerr, pmsg), rc)
+			rep.Violate("C01", "codec/unmarshal-own-output/fails/"+mode, tn, fmt.Sprintf("Unmarshal (%s) of own output failed: err=%v %s", unmarshalEntryName(entry), uerr, pmsg), rc)
 			continue
 		}
 		if got := SpecEncode(Canon(StructToIR(fresh))); !bytes.Equal(got, exp) {
@@ -514,6 +516,60 @@ func codecCase(rep *Report, s *glue.Subject, d MD, idx int) {
 	// read-only calls above must not have changed the struct (also part of C07; cheap here)
 	if fp := Fingerprint(S); fp != fpBefore {
 		rep.Violate("C07", "codec/readonly-call-mutates-struct", tn, "struct changed by Size/Marshal/MarshalAppend", rc)
+	}
+
+	// --- C04/C02: sizes are computed from the message as it is now, never remembered: after the calls above (which
+	// may have filled size caches at every level) nested messages are changed in place and the message is sized and
+	// marshalled again through every entry point.
+	markProp("C04")
+	if idx%3 == 0 && marshalOK {
+		T := BuildStruct(s.Zero, expIR)
+		pan, pmsg = safely(func() { _ = detOpts.Size(T); _, _ = detOpts.Marshal(T); _ = plainOpts.Size(T) })
+		if n := perturbNested(reflect.ValueOf(T), 0, r); n > 0 && !pan {
+			exp2 := SpecEncode(Canon(StructToIR(T)))
+			dm := dynamicpb.NewMessage(d)
+			if e := (proto.UnmarshalOptions{AllowPartial: true}).Unmarshal(exp2, dm); e == nil {
+				rep.Count("C04", "size-mutate-marshal-histories", 1)
+				type entry struct {
+					name string
+					f    func() ([]byte, int, error)
+				}
+				direct := func(flags protoiface.MarshalInputFlags) func() ([]byte, int, error) {
+					return func() ([]byte, int, error) {
+						pm := T.ProtoReflect().ProtoMethods()
+						so := pm.Size(protoiface.SizeInput{Message: T.ProtoReflect(), Flags: flags &^ protoiface.MarshalDeterministic})
+						mo, e := pm.Marshal(protoiface.MarshalInput{Message: T.ProtoReflect(), Flags: flags})
+						return mo.Buf, so.Size, e
+					}
+				}
+				entries := []entry{
+					{"ProtoMethods().Marshal(Deterministic)", direct(protoiface.MarshalDeterministic)},
+					{"MarshalOptions{Deterministic}.Marshal", func() ([]byte, int, error) {
+						b, e := (proto.MarshalOptions{Deterministic: true, AllowPartial: true}).Marshal(T)
+						return b, (proto.MarshalOptions{Deterministic: true, AllowPartial: true}).Size(T), e
+					}},
+					{"MarshalOptions{Deterministic}.MarshalAppend", func() ([]byte, int, error) {
+						b, e := (proto.MarshalOptions{Deterministic: true, AllowPartial: true}).MarshalAppend(make([]byte, 0, 4), T)
+						return b, len(exp2), e
+					}},
+				}
+				for _, en := range entries {
+					var b []byte
+					var sz int
+					var e error
+					pan, pmsg = safely(func() { b, sz, e = en.f() })
+					switch {
+					case pan || e != nil:
+						rep.Violate("C04", "codec/after-mutation/fails", tn, fmt.Sprintf("%s after sizing, changing nested messages in place and marshalling again: err=%v %s", en.name, e, pmsg), rc)
+					case sz != len(exp2):
+						rep.Violate("C04", "codec/after-mutation/size", tn, fmt.Sprintf("%s: Size=%d after nested messages changed in place, the value now encodes to %d bytes", en.name, sz, len(exp2)), rc)
+					case !bytes.Equal(b, exp2):
+						rep.Violate("C02", "codec/after-mutation/det-bytes", tn, fmt.Sprintf("%s after nested messages changed in place: %s", en.name, firstDiff(b, exp2)), rc)
+						rep.Violate("C04", "codec/after-mutation/det-bytes", tn, fmt.Sprintf("%s after nested messages changed in place: %s", en.name, firstDiff(b, exp2)), rc)
+					}
+				}
+			}
+		}
 	}
 
 	// --- C05
@@ -722,4 +778,73 @@ func firstKey(rv reflect.Value) string {
 		return fmt.Sprint(it.Key().Interface())
 	}
 	return ""
+}
+
+// perturbNested changes, in place, varint and string fields of the messages nested below the top level (fields,
+// list elements, map values, oneof members; generated and foreign types alike) so that their encoded size changes.
+// Returns the number of fields changed.
+func perturbNested(rv reflect.Value, depth int, r *rand.Rand) int {
+	if depth > 60 {
+		return 0
+	}
+	n := 0
+	switch rv.Kind() {
+	case reflect.Ptr, reflect.Interface:
+		if !rv.IsNil() {
+			n += perturbNested(rv.Elem(), depth, r)
+		}
+	case reflect.Struct:
+		t := rv.Type()
+		for i := 0; i < rv.NumField(); i++ {
+			sf := t.Field(i)
+			if sf.PkgPath != "" {
+				continue
+			}
+			fv := rv.Field(i)
+			tag := sf.Tag.Get("protobuf")
+			if depth > 0 && tag != "" && fv.CanSet() && r.Intn(3) == 0 {
+				kind := strings.SplitN(tag, ",", 2)[0]
+				switch {
+				case (kind == "varint" || kind == "zigzag64" || kind == "zigzag32") && (fv.Kind() == reflect.Int64 || fv.Kind() == reflect.Int32):
+					if fv.Int() == 0 || (fv.Int() > -64 && fv.Int() < 64) {
+						fv.SetInt(1 << 29)
+					} else {
+						fv.SetInt(1)
+					}
+					n++
+					continue
+				case kind == "varint" && (fv.Kind() == reflect.Uint64 || fv.Kind() == reflect.Uint32):
+					if fv.Uint() < 128 {
+						fv.SetUint(1 << 30)
+					} else {
+						fv.SetUint(1)
+					}
+					n++
+					continue
+				case kind == "bytes" && fv.Kind() == reflect.String:
+					if len(fv.String()) < 3 {
+						fv.SetString("changed-in-place-to-something-longer")
+					} else {
+						fv.SetString("x")
+					}
+					n++
+					continue
+				}
+			}
+			n += perturbNested(fv, depth+1, r)
+		}
+	case reflect.Slice:
+		if rv.Type().Elem().Kind() == reflect.Ptr {
+			for i := 0; i < rv.Len(); i++ {
+				n += perturbNested(rv.Index(i), depth+1, r)
+			}
+		}
+	case reflect.Map:
+		if rv.Type().Elem().Kind() == reflect.Ptr {
+			for _, k := range rv.MapKeys() {
+				n += perturbNested(rv.MapIndex(k), depth+1, r)
+			}
+		}
+	}
+	return n
 }
